@@ -83,3 +83,57 @@ Proof.
       rewrite Forall_forall in H; destruct (H x Hx) as [Gs Gy]; [apply Gs|apply Gy]; now apply Hf.
   - now apply con_good.
 Qed.
+
+(* ---------------------------------------------------------------- E3: OwnedLockable types own their locks *)
+Lemma has_ol_in h : has_ol h = true -> exists b, In (h, b) ownedlockable_impls.
+Proof.
+  unfold has_ol. intros H. apply existsb_exists in H. destruct H as [[h' b] [Hin E]]. cbn [fst] in E.
+  apply String.eqb_eq in E. subst. now exists b.
+Qed.
+
+Lemma allowed_not_ref c : str_in c ol_allowed = true -> String.eqb c "RefLockCollection" = false.
+Proof.
+  unfold str_in, ol_allowed. cbn [existsb]. intros H.
+  repeat (apply orb_true_iff in H; destruct H as [H|H]; [apply String.eqb_eq in H; subst; reflexivity|]).
+  discriminate H.
+Qed.
+
+Lemma e3_head h : e3 = true -> has_ol h = true ->
+  str_in h ol_allowed = true /\ (ol_leaf h = true \/ ol_needs_elem h = true).
+Proof.
+  unfold e3. intros E H. apply andb_true_iff in E. destruct E as [_ E]. rewrite forallb_forall in E.
+  destruct (has_ol_in _ H) as [b Hin]. pose proof (E _ Hin) as X. cbn [fst snd] in X.
+  apply andb_true_iff in X. destruct X as [A B]. split; [exact A|].
+  destruct (ol_leaf h) eqn:L; [now left|]. right.
+  unfold ol_needs_elem. apply forallb_forall. intros [h' b'] Hin'. cbn [fst snd].
+  destruct (String.eqb_spec h' h) as [->|]; [|reflexivity]. cbn [implb].
+  pose proof (E _ Hin') as Y. cbn [fst snd] in Y. rewrite L in Y. apply andb_true_iff in Y. destruct Y as [_ Y]. exact Y.
+Qed.
+
+Lemma no_shared_ref_impl : e3 = true -> has_ol "&" = false.
+Proof.
+  intros E. destruct (has_ol "&") eqn:H; [|reflexivity]. destruct (e3_head "&" E H) as [A _]. vm_compute in A. discriminate A.
+Qed.
+
+Theorem ownedlockable_owns : e3 = true -> forall t, ol t = true -> owns t = true.
+Proof.
+  intros E. induction t as [s y|t IH|t IH|ts IH|c t IH] using ty_ind'; cbn [ol owns]; intros H.
+  - discriminate H.
+  - rewrite (no_shared_ref_impl E) in H. discriminate H.
+  - apply andb_true_iff in H. destruct H as [H1 H2].
+    destruct (e3_head _ E H1) as [_ [L|N]]; [vm_compute in L; discriminate L|]. rewrite N in H2. now apply IH.
+  - apply andb_true_iff in H. destruct H as [H1 H2].
+    assert (N : forallb ol_needs_elem seq_heads = true).
+    { (* every sequence head that has an impl needs owned elements; heads without an impl need nothing *)
+      apply forallb_forall. intros h Hh. destruct (has_ol h) eqn:Hh'.
+      - destruct (e3_head _ E Hh') as [_ [L|N]]; [|exact N].
+        unfold seq_heads in Hh. cbn in Hh. repeat (destruct Hh as [<-|Hh]; [vm_compute in L; discriminate L|]). destruct Hh.
+      - unfold ol_needs_elem. apply forallb_forall. intros [h' b'] Hin'. cbn [fst snd].
+        destruct (String.eqb_spec h' h) as [->|]; [|reflexivity]. exfalso.
+        assert (X : has_ol h = true) by (unfold has_ol; apply existsb_exists; exists (h, b'); split; [exact Hin'|apply String.eqb_refl]).
+        congruence. }
+    rewrite N in H2. rewrite forallb_forall in H2 |- *. rewrite Forall_forall in IH. intros x Hx. apply IH; auto.
+  - apply andb_true_iff in H. destruct H as [H1 H2]. destruct (ol_leaf c) eqn:L; [reflexivity|]. cbn [orb] in H2 |- *.
+    destruct (e3_head _ E H1) as [A [L'|N]]; [congruence|]. rewrite N in H2.
+    rewrite (allowed_not_ref _ A). cbn [negb andb]. now apply IH.
+Qed.
